@@ -304,6 +304,21 @@ func registerMisc(e *Engine) {
 		}
 		return src.v, nil
 	})
+	e.reg("(*math/rand.Rand).Uint64", func(ex *Exec, fn *ssa.Function, args []Value) (Value, *PanicV) {
+		c := ex.ctx
+		src, pan := ex.randInt63(args[0])
+		if pan != nil {
+			return nil, pan
+		}
+		if src.fresh {
+			// two Int63 draws natively: uint64(a)>>31 | uint64(b)<<32
+			a, b := c.Fresh("u64a", BV(64)), c.Fresh("u64b", BV(64))
+			ex.addAxiom(c.And(c.Sle(c64(c, 0), a), c.Sle(c64(c, 0), b)))
+			ex.tape = append(ex.tape, Draw{Name: "rand_int63", Kind: "int63", Term: a, Width: 64}, Draw{Name: "rand_int63", Kind: "int63", Term: b, Width: 64})
+			return c.BOr(c.Lshr(a, c64(c, 31)), c.Shl(b, c64(c, 32))), nil
+		}
+		return c.UF("u64_of", BV(64), src.v), nil
+	})
 	e.reg("(*math/rand.Rand).Float64", func(ex *Exec, fn *ssa.Function, args []Value) (Value, *PanicV) {
 		c := ex.ctx
 		src, pan := ex.randInt63(args[0])
